@@ -126,6 +126,16 @@ Section Store.
   Definition dir_delete (st : dir) (id : N) : option dir :=
     match dir_get st id with None => None | Some _ => Some (dir_remove st id) end.
   Definition dir_list (st : dir) : list N := map fst st.
+  (* onDiskStore.Delete(ids...): one os.Remove after the other; the first error ends the loop and is returned
+     (false); the IDs before it are gone, the ones after it are untouched *)
+  Fixpoint dir_delete_all (st : dir) (ids : list N) : dir * bool :=
+    match ids with
+    | [] => (st, true)
+    | i :: t => match dir_delete st i with
+                | None => (st, false)
+                | Some st' => dir_delete_all st' t
+                end
+    end.
 
   Inductive gres := GOk (d : bytes) | GNoFile | GErr (r : rres).
 
